@@ -179,6 +179,28 @@ def t_batch(empty):
     return t
 
 
+def t_empty_candle(h):
+    """CandlesState._generate_empty_candle_from_previous_candle (the gap filler of the store): a NEW candle one timeframe later, flat
+    at the previous close with zero volume - the candle it is derived from (a live row of the store) is left as it is"""
+    st, arr = mk_store(h, '1m')
+    prev = h.vec('prev', 6)
+    before = list(prev.e)
+    out = h.method_outcome(st, '_generate_empty_candle_from_previous_candle', prev, '5m')
+    h.prove(out.ok, 'empty-candle.no-exception', {'raised': out.exc})
+    if not out.ok:
+        return
+    new = out.value
+    h.prove(isinstance(new, Vec) and new is not prev, 'empty-candle.result-is-a-new-array')
+    same = all(x is y or ops.equal(x, y) is True for x, y in zip(prev.e, before))
+    h.prove(same, 'empty-candle.the-previous-candle-is-left-unmodified')
+    if isinstance(new, Vec):
+        c = before[2]
+        goal = ops.land(ops.equal(new.e[0], ops.arith('+', before[0], 300000)), ops.equal(new.e[5], 0))
+        for k in (1, 2, 3, 4):
+            goal = ops.land(goal, ops.equal(new.e[k], c))
+        h.prove(goal, 'empty-candle.one-timeframe-later-flat-at-the-previous-close-with-zero-volume')
+
+
 def t_multi(case):
     def t(h):
         st, arr = mk_store(h, '1m')
@@ -307,6 +329,7 @@ def tasks(tier):
         ts.append(Task(f'add.{case}', t_add(case), extra=dict(xa), overrides=dict(ov), invariants={add_key: K.ADD_INV}))
     for empty in (True, False):
         ts.append(Task(f'batch.{"empty" if empty else "filled"}', t_batch(empty), extra=x, overrides=dict(ov)))
+    ts.append(Task('empty-candle', t_empty_candle, extra=x, overrides=dict(ov)))
     ts.append(Task('add.zero', t_add_zero, extra=dict(xa), overrides=dict(ov), invariants={add_key: K.ADD_INV}))
     for case in ('empty', 'newer', 'same', 'overlap'):
         ts.append(Task(f'multi.{case}', t_multi(case), extra=x, overrides=dict(ov)))
